@@ -241,6 +241,7 @@ class DirectedOverflowWatch:
         self.cls = fp.IEEEContext
         self.nearest = (fp.RM.RNE, fp.RM.RNA)
         self.hit = False
+        self.subnormal_tie = False
         self.orig = {}
 
     def __enter__(self):
@@ -259,6 +260,17 @@ class DirectedOverflowWatch:
                         x = a[0]
                         if r.overflow or (not (getattr(x, 'isnan', False) or getattr(x, 'isinf', False)) and abs(x) > ctx.maxval()):
                             watch.hit = True
+                    else:
+                        # a tie at the bottom of the subnormal range (|x| = q/2 or 3q/2, q the smallest subnormal): titanfp
+                        # resolves it differently per format (binary16 nearestEven: 3q/2 -> q; binary32, (float 4 8): q/2 -> q),
+                        # IEEE 754 and FPy go to the even multiple of q (0 and 2q).  Measured with (* x y) on titanfp alone.
+                        x = a[0]
+                        if not (getattr(x, 'isnan', False) or getattr(x, 'isinf', False)):
+                            ax = abs(x.as_rational() if hasattr(x, 'as_rational') else Fraction(x))
+                            q = Fraction(2) ** ctx.expmin
+                            if ax * 2 in (q, 3 * q):
+                                watch.hit = True
+                                watch.subnormal_tie = True
                 except Exception:
                     pass
                 return r
@@ -392,7 +404,7 @@ def shard(i: int, n: int, tier: str, seed: int) -> Result:
                     res.count('fpy_timeout')
                     continue
                 if watch.hit:
-                    res.count('directed_overflow_not_compared')
+                    res.count('subnormal_tie_not_compared' if watch.subnormal_tie else 'directed_overflow_not_compared')
                     continue
                 t = genrun.guarded(lambda: Interpreter().interpret(core, [to_mpmf(a) for a in args]), timeout=20.0)
                 if t[0] == 'timeout':
